@@ -710,10 +710,21 @@ func runHistory(payload string) string {
 	var stream bytes.Buffer
 	var outs []string
 	same := true
-	m := refmt.NewMarshallerAtlased(eo, &stream, atl)
+	fw := &faultOnceWriter{buf: &stream, failAt: -1}
+	m := refmt.NewMarshallerAtlased(eo, fw, atl)
 	var good []int
 	for i, it := range its {
 		start := stream.Len()
+		if i%3 == 1 {
+			// a call that fails because the writer fails once (an error, or a short count without one) at its
+			// k-th write; what was written is discarded; the writer works again afterwards
+			fw.calls, fw.failAt, fw.short = 0, (i/3)%6, (i/3)%2 == 1
+			if _, p := safely(func() error { return m.Marshal(it.v.Interface()) }); p {
+				return "panic"
+			}
+			fw.failAt = -1
+			stream.Truncate(start)
+		}
 		e, p := safely(func() error { return m.Marshal(it.v.Interface()) })
 		fresh, fe := []byte(nil), error(nil)
 		_, fp := safely(func() error { fresh, fe = refmt.MarshalAtlased(eo, it.v.Interface(), atl); return fe })
@@ -844,6 +855,27 @@ func runHistory(payload string) string {
 	}
 	return strings.Join(outs, " ;; ") + fmt.Sprintf(" | same=%d", b2i(same))
 }
+
+// faultOnceWriter fails exactly one Write / WriteString call (the failAt-th, counted from 0) and works otherwise
+type faultOnceWriter struct {
+	buf    *bytes.Buffer
+	calls  int
+	failAt int
+	short  bool
+}
+
+func (w *faultOnceWriter) Write(p []byte) (int, error) {
+	w.calls++
+	if w.calls-1 == w.failAt {
+		if w.short && len(p) > 0 {
+			return len(p) - 1, nil
+		}
+		return 0, fmt.Errorf("write fault")
+	}
+	return w.buf.Write(p)
+}
+
+func (w *faultOnceWriter) WriteString(s string) (int, error) { return w.Write([]byte(s)) }
 
 var jsonPoison = []string{"-x", "\"ab\\q", "1.}", "\"\x01", "1e+", "\"\\u12G", "-", "tru", "\"\\q"}
 
